@@ -22,7 +22,7 @@ def budget(tier):
 
 
 def gen(d, tier):
-    cfg = draw_cfg(d)
+    cfg = draw_cfg(d, allow_ci=True)
     n_ops = (4, 9) if tier == "quick" else (4, 18)
     acts, world = gen_history(d, cfg, sides=(0, 1), n_ops=n_ops, sizes=False, w_settle=1, w_op=6)
     return {"cfg": cfg, "acts": acts, "meta": {"excluded": dict(world.excluded)}}
